@@ -121,6 +121,7 @@ class Ctx(object):
         self.exc_parent = {}            # name -> parent name
         self.tag = "" if scope is None else "_fs%d" % scope
         self.str_enum = None
+        self.always_truthy = set(getattr(self, "always_truthy", ()))
 
     # -- names
     def fresh(self, base):
@@ -769,6 +770,9 @@ def truthy(v):
         return z3.And(z3.Not(ois_none(v)), truthy(oval(v)))
     if isinstance(ty, Tup):
         return z3.BoolVal(len(ty.elems) > 0)
+    if isinstance(ty, U) and ty.name not in CTX.always_truthy:
+        # an opaque value may be falsy (0, '', [], False ...): truthiness is an uninterpreted predicate of the value
+        return CTX.func("truthy_" + ty.name, CTX.sort(ty), z3.BoolSort())(v.t)
     if isinstance(ty, (Ref, U, Fn)) or ty is EXC:
         return z3.BoolVal(True)
     raise OutsideSubset("truthiness of %r" % (ty,))
